@@ -5,11 +5,13 @@
 (* traces) or as one Simulation per partition (independent traces).           *)
 (*   [ id, mode ("coord" | "indep"), ep, np, links << <<p,q,lat>>.. >>, w,    *)
 (*     endT, n0, s0 (first window end),                                        *)
-(*     evs << <<t, tgt, par>>.. >>          the program (ticks)                *)
+(*     evs << <<t, tgt, par, cby>>.. >>     the program (ticks; cby = canceller) *)
 (*     seq << per entity: << <<i, t>>.. >> >>  reference run, observed         *)
 (*     log << record.. >> ]                 partitioned run, observed:         *)
 (*   <<"d", p, i, t>>  partition p delivered event i, entity clock read t       *)
 (*   <<"s", p, i>>     partition p logged "Time travel detected" for event i    *)
+(*   <<"x", p, c>>     the handler just delivered in partition p called c.cancel()*)
+(*   <<"k", p, c>>     partition p popped the cancelled event c (lazy deletion)  *)
 (*   <<"D", p>>        _run_window of partition p returned                      *)
 (*   <<"X", << <<i, q>>.. >> >>  barrier: events injected into partition q     *)
 (*   <<"A", n, s>>     next window end (n ticks, s short) | <<"A", -1, 0>> stop *)
@@ -44,7 +46,8 @@ Tr == Traces[ti]
 Rng(s) == { s[k] : k \in 1..Len(s) }
 TLinks(T) == { <<x[1], x[2]>> : x \in Rng(T.links) }
 TLat(T) == [k \in TLinks(T) |-> (CHOOSE x \in Rng(T.links) : <<x[1], x[2]>> = k)[3]]
-TEv(T) == [k \in 1..Len(T.evs) |-> [t |-> T.evs[k][1], tgt |-> T.evs[k][2], par |-> T.evs[k][3]]]
+TEv(T) == [k \in 1..Len(T.evs) |-> [t |-> T.evs[k][1], tgt |-> T.evs[k][2], par |-> T.evs[k][3],
+                                      cby |-> IF Len(T.evs[k]) >= 4 THEN T.evs[k][4] ELSE 0]]
 
 \* state of Windowed.tla at the first window of the partitioned run of trace T
 LoadState(T) ==
@@ -64,6 +67,7 @@ Load(T) ==
     /\ heap' = S.heap /\ clock' = [p \in S.P |-> 0] /\ outbox' = [p \in S.P |-> {}]
     /\ pdone' = [p \in S.P |-> FALSE] /\ curN' = 0 /\ curS' = 0 /\ endN' = S.endN /\ endS' = S.endS
     /\ sub' = S.sub /\ plog' = [e \in S.E |-> <<>>] /\ dropped' = {} /\ late' = {}
+    /\ pcx' = {} /\ drain' = [p \in S.P |-> FALSE]
     /\ ovr' = [p \in S.P |-> -1] /\ shist' = <<S.endS>>
     /\ conform' = TRUE /\ mis' = "" /\ olog' = [e \in S.E |-> <<>>]
     /\ oclk' = [p \in S.P |-> 0] /\ oend' = S.endN - S.endS /\ oovr' = [p \in S.P |-> -1]
@@ -75,6 +79,7 @@ TInit ==
        THEN /\ conf = [ep |-> <<1>>, np |-> 1, links |-> {}, endT |-> Inf] /\ lat = <<>> /\ w = 0 /\ ev = <<>>
             /\ heap = <<{}>> /\ sub = "-" /\ endN = 0 /\ endS = 0
             /\ clock = <<0>> /\ outbox = <<{}>> /\ pdone = <<FALSE>> /\ slog = <<<<>>>> /\ plog = <<<<>>>>
+            /\ drain = <<FALSE>>
             /\ ovr = <<-1>> /\ shist = <<>> /\ olog = <<<<>>>> /\ oclk = <<0>> /\ oend = 0 /\ oovr = <<-1>>
             /\ wild = <<FALSE>>
        ELSE LET S == LoadState(Traces[1]) IN
@@ -82,10 +87,11 @@ TInit ==
             /\ endN = S.endN /\ endS = S.endS
             /\ clock = [p \in S.P |-> 0] /\ outbox = [p \in S.P |-> {}] /\ pdone = [p \in S.P |-> FALSE]
             /\ slog = [e \in S.E |-> <<>>] /\ plog = [e \in S.E |-> <<>>]
+            /\ drain = [p \in S.P |-> FALSE]
             /\ ovr = [p \in S.P |-> -1] /\ shist = <<S.endS>> /\ olog = [e \in S.E |-> <<>>]
             /\ oclk = [p \in S.P |-> 0] /\ oend = S.endN - S.endS /\ oovr = [p \in S.P |-> -1]
             /\ wild = [p \in S.P |-> FALSE]
-    /\ phase = "par" /\ sheap = {} /\ curN = 0 /\ curS = 0 /\ dropped = {} /\ late = {}
+    /\ phase = "par" /\ sheap = {} /\ curN = 0 /\ curS = 0 /\ dropped = {} /\ late = {} /\ pcx = {}
     /\ conform = TRUE /\ mis = "" /\ known = {} /\ oinj = {} /\ bad = "" /\ badpos = 0
 
 \* ---- following the implementation model -------------------------------------
@@ -138,11 +144,21 @@ ValidP(p) == p \in 1..Tr.np
 StepRec(r) ==
     CASE r[1] = "d" /\ ValidEv(r[3]) /\ ValidP(r[2]) ->
            /\ ObsDeliver(r[2], r[3], r[4])
-           /\ Follow(ExecGuard(r[2], r[3]) /\ ev[r[3]].t >= clock[r[2]] /\ r[4] = ev[r[3]].t,
+           /\ Follow(ExecGuard(r[2], r[3]) /\ r[3] \notin pcx /\ ev[r[3]].t >= clock[r[2]] /\ r[4] = ev[r[3]].t,
                      ExecStep(r[2], r[3]), "deliver")
       [] r[1] = "s" /\ ValidEv(r[3]) /\ ValidP(r[2]) ->
            /\ ObsSkip(r[2], r[3])
-           /\ Follow(ExecGuard(r[2], r[3]) /\ ev[r[3]].t < clock[r[2]], ExecStep(r[2], r[3]), "skip")
+           /\ Follow(ExecGuard(r[2], r[3]) /\ r[3] \notin pcx /\ ev[r[3]].t < clock[r[2]],
+                     ExecStep(r[2], r[3]), "skip")
+      [] r[1] = "k" /\ ValidEv(r[3]) /\ ValidP(r[2]) ->
+           /\ ObsNone
+           /\ IF Tr.mode = "indep"
+              THEN Follow(IndepGuard(r[2], r[3]) /\ r[3] \in pcx, IndepStep(r[2], r[3]), "cancelled_pop")
+              ELSE Follow(ExecGuard(r[2], r[3]) /\ r[3] \in pcx, ExecStep(r[2], r[3]), "cancelled_pop")
+      [] r[1] = "x" /\ ValidEv(r[3]) /\ ValidP(r[2]) ->
+           \* the model cancels inside the delivery step; here only: was that a timer the model disarmed?
+           /\ ObsNone
+           /\ Follow(r[3] \in pcx, UNCHANGED vars, "cancel")
       [] r[1] = "D" /\ ValidP(r[2]) ->
            /\ ObsNone
            /\ Follow(DoneGuard(r[2]), ExecDone(r[2]), "window_return")
@@ -163,7 +179,8 @@ StepRec(r) ==
                      Advance(IF r[2] = -1 \/ S = {} THEN 0 ELSE CHOOSE s \in S : TRUE), "advance")
       [] r[1] = "I" /\ ValidEv(r[3]) /\ ValidP(r[2]) ->
            /\ ObsDeliver(r[2], r[3], r[4])
-           /\ Follow(IndepGuard(r[2], r[3]) /\ r[4] = ev[r[3]].t, IndepStep(r[2], r[3]), "indep_deliver")
+           /\ Follow(IndepGuard(r[2], r[3]) /\ r[3] \notin pcx /\ r[4] = ev[r[3]].t,
+                     IndepStep(r[2], r[3]), "indep_deliver")
       [] r[1] = "end" ->
            /\ ObsNone
            /\ Follow(IF Tr.mode = "indep" THEN phase = "par" /\ \A p \in Parts : ~IndepCanPop(p)
